@@ -126,7 +126,8 @@ func (g *gen) in(lo, hi int) int {
 func (g *gen) pick(xs ...string) string { return xs[g.r.Intn(len(xs))] }
 
 var priceMenu = []string{"1", "0.5", "2", "0.333333333333333333", "1.000000000000000001", "3.7", "0.142857142857142857", "2.5", "10", "0.999999999999999999", "7",
-	"0.666666666666666667", "4.666666666666666667", "6.666666666666666667", "0.7", "0.9", "1.1", "0.3", "0.35"}
+	"0.666666666666666667", "4.666666666666666667", "6.666666666666666667", "0.7", "0.9", "1.1", "0.3", "0.35",
+	"3.000000000000000001", "2.000000000000000003", "4.999999999999999999"}
 var tinyPrices = []string{"0.000000000000000001", "0.000000000000000003", "0.01"}
 var bigPrices = []string{"1000000", "123456789.123456789123456789", "1000000000000000000"}
 
@@ -682,7 +683,8 @@ func (g *gen) txCreate(pm *Model) *Tx {
 			m.MaxExtRound = 30
 		}
 		m.ExtRate = g.pick("0.05", "0.2", "0.5", "1", "0.000000000000000001", "0.333333333333333333", "0.25", "0.1",
-			"0.333333333333333334", "0.666666666666666667", "0.666666666666666666", "0.142857142857142858", "0.5", "0.25")
+			"0.333333333333333334", "0.666666666666666667", "0.666666666666666666", "0.142857142857142858", "0.5", "0.25",
+			"1.5", "1.000000000000000001") // a rate above 1 is legal: no fall can reach it, only an empty previous round extends
 	} else {
 		m.Kind = KCreateFixed
 	}
@@ -868,6 +870,14 @@ func (g *gen) txBid(pm *Model, a *MAuction, reason string) *Tx {
 			w := lo
 			if hi.Cmp(lo) > 0 && g.chance(0.5) {
 				w = new(big.Int).Add(lo, new(big.Int).Rand(g.r, new(big.Int).Sub(hi, lo)))
+			}
+			if g.chance(0.25) {
+				// the largest worth that still buys q: worth/price lands just below q+1, where the rounding
+				// of the 18th decimal of the quotient decides between q and q+1
+				if v := floorMulDec(new(big.Int).Add(q, bigOne), a.StartPrice); v.Cmp(lo) >= 0 && new(big.Int).Mul(v, decUnit).Cmp(new(big.Int).Mul(new(big.Int).Add(q, bigOne), a.StartPrice)) < 0 {
+					w = v
+					g.intents["fixed_worth_just_below_next_coin"]++
+				}
 			}
 			if w.Sign() == 0 {
 				w = big.NewInt(1)
